@@ -376,18 +376,35 @@ def removeExchange (s : State) (remote : Remote) (w : Wire) : State Ã— List Out 
     let (s3, o') := continueBacklog s2 remote
     (s3, o ++ o')
 
-/-- `_process_request` -/
+/-- the `on_timeout` of `_process_request`; also what `_process_request` does to the opportunity of
+an earlier request on the same token: the empty ACK goes out at once -/
+def fireEmptyAck (s : State) (remote : Remote) (token : Token) : State Ã— List Out :=
+  match s.piggy.find? (fun p => p.remote == remote && p.token == token) with
+  | none => (s, [])
+  | some p => sendBare (dropPiggy s remote token) remote .ack p.mid
+
+/-- `_process_request`: a request of either type on a token whose earlier CON request is not yet
+acknowledged flushes that opportunity (empty ACK under the old message ID); a CON request then
+opens its own -/
 def processRequest (s : State) (remote : Remote) (w : Wire) : State Ã— List Out :=
+  let (s0, o0) := fireEmptyAck s remote w.token
   let s1 := if w.mtype == .con then
-      { s with piggy := s.piggy.filter (fun p => !(p.remote == remote && p.token == w.token)) ++
-                          [{ remote, token := w.token, mid := w.mid,
-                             fireAt := s.now + s.cfg.emptyAckDelay }] }
-    else s
-  tokenProcessRequest s1 remote w
+      { s0 with piggy := s0.piggy ++ [{ remote, token := w.token, mid := w.mid,
+                                        fireAt := s0.now + s0.cfg.emptyAckDelay }] }
+    else s0
+  let (s2, o2) := tokenProcessRequest s1 remote w
+  (s2, o0 ++ o2)
+
+/-- is the message subject to deduplication: a request code on a CON or NON -/
+def dedupable (w : Wire) : Bool := isRequest w.code && (w.mtype == .con || w.mtype == .non)
+
+/-- does the code fit the type of an ACK or RST (RFC 7252 table 1): empty, or a response on an ACK -/
+def fitsReply (w : Wire) : Bool :=
+  ((w.mtype == .ack || w.mtype == .rst) && w.code == 0) || (w.mtype == .ack && isResponse w.code)
 
 /-- is this request a duplicate (`_deduplicate_message` finds its key)? -/
 def isDup (s : State) (remote : Remote) (w : Wire) : Bool :=
-  isRequest w.code && s.recent.any (fun r => r.remote == remote && r.mid == w.mid)
+  dedupable w && s.recent.any (fun r => r.remote == remote && r.mid == w.mid)
 
 /-- the stored reply for `(remote, mid)`, if any -/
 def storedReply (s : State) (remote : Remote) (mid : Nat) : Option Wire :=
@@ -420,11 +437,11 @@ def recvCode (s : State) (remote : Remote) (mcLocal : Bool) (w : Wire) : State Ã
 /-- `dispatch_message` -/
 def recv (s : State) (remote : Remote) (mcLocal : Bool) (w : Wire) : State Ã— List Out :=
   if isDup s remote w then recvDup s remote w else
-  let s0 := if isRequest w.code then
+  let s0 := if dedupable w then
       { s with recent := s.recent ++ [{ remote, mid := w.mid, reply := none,
                                         expiry := s.now + s.cfg.exchangeLifetime }] }
     else s
-  let (s1, o1) := if w.mtype == .ack || w.mtype == .rst then removeExchange s0 remote w else (s0, [])
+  let (s1, o1) := if fitsReply w then removeExchange s0 remote w else (s0, [])
   let (s2, o2) := recvCode s1 remote mcLocal w
   (s2, o1 ++ o2)
 
@@ -450,12 +467,6 @@ def fireRetransmit (s : State) (remote : Remote) (mid : Nat) : State Ã— List Out
       ({ s1 with exchanges := s1.exchanges ++ [e.next s.now] }, [.send s.now remote e.msg])
     else
       tokenDispatchError (dropBacklog s1 remote) remote .conRetransmitsExceeded
-
-/-- the `on_timeout` of `_process_request` -/
-def fireEmptyAck (s : State) (remote : Remote) (token : Token) : State Ã— List Out :=
-  match s.piggy.find? (fun p => p.remote == remote && p.token == token) with
-  | none => (s, [])
-  | some p => sendBare (dropPiggy s remote token) remote .ack p.mid
 
 def fireExpire (s : State) (remote : Remote) (mid : Nat) : State Ã— List Out :=
   ({ s with recent := s.recent.filter (fun r => !(r.remote == remote && r.mid == mid)) }, [])
